@@ -537,7 +537,7 @@ static void body_history_enter(int redirect_to = 0) {
 // the answers of rank()/utility() are drawn BEFORE the call so that the documented preconditions can be assumed up front
 static void predraw_answers() {
   for (int s = 1; s < VM_NS; ++s) {
-    g_rank_called[s] = true; g_rank_val[s] = nd_i8(); VASSUME(g_rank_val[s] >= 0 && g_rank_val[s] <= 1); if (!VM_HAS_RANK(s)) g_rank_val[s] = 0;   // a state that does not override rank() has the default rank
+    g_rank_called[s] = true; g_rank_val[s] = nd_i8(); VASSUME(g_rank_val[s] >= -1 && g_rank_val[s] <= 1);      // ranks are signed: negative, zero and positive if (!VM_HAS_RANK(s)) g_rank_val[s] = 0;   // a state that does not override rank() has the default rank
     g_util_called[s] = true; g_util_val[s] = nd_f32(); VASSUME(g_util_val[s] >= 0.0f && g_util_val[s] <= 1000.0f);
   }
 }
@@ -617,7 +617,7 @@ static void body_utilize(int kind, int region) {              // kind: 4 = utili
 static void body_randomize(int kind, int region) {            // kind: 5 = randomize(region), 0 = changeTo(region) for a region declared random
   ARBITRARY_ACTIVE(f);
   predraw_answers();
-  int8_t top = -1; for (int c = region + 1; c < VM_NS; ++c) if (VM_SPEC[c].parent == region && g_rank_val[c] > top) top = g_rank_val[c];
+  int8_t top = -128; for (int c = region + 1; c < VM_NS; ++c) if (VM_SPEC[c].parent == region && g_rank_val[c] > top) top = g_rank_val[c];
   bool positive = false; for (int c = region + 1; c < VM_NS; ++c) if (VM_SPEC[c].parent == region && g_rank_val[c] == top && g_util_val[c] > 0.0f) positive = true;
   VASSUME(positive);                                           // documented precondition: positive top-rank utility sum
   VREACH("randomize with a positive top-rank sum");
@@ -649,7 +649,7 @@ static void body_randomize_regions(int kind, int region) {
     const Prong p = f._core.registry.compoActive[VM_SPEC[region].fork];
     VASSERT(C12/C01, p < VM_SPEC[region].width, "randomize never activates none");
     int chosen = -1; for (int c = region + 1; c < VM_NS; ++c) if (VM_SPEC[c].parent == region && VM_SPEC[c].prong == p) chosen = c;
-    int8_t top = -1; for (int c = region + 1; c < VM_NS; ++c) if (VM_SPEC[c].parent == region && g_rank_val[c] > top) top = g_rank_val[c];
+    int8_t top = -128; for (int c = region + 1; c < VM_NS; ++c) if (VM_SPEC[c].parent == region && g_rank_val[c] > top) top = g_rank_val[c];
     if (chosen >= 0) VASSERT(C12, g_rank_val[chosen] == top, "randomize considers only sub-states of the highest rank (options that are regions included)");
   }
   post_invariant(f);
@@ -659,7 +659,7 @@ static void body_randomize_exact(int kind, int region) {
   predraw_answers();
   unsigned k[VM_NS] = {};
   for (int c = region + 1; c < VM_NS; ++c) if (VM_SPEC[c].parent == region) { k[c] = nd_u8_below(4); g_util_val[c] = (float) k[c]; }
-  int8_t top = -1; for (int c = region + 1; c < VM_NS; ++c) if (VM_SPEC[c].parent == region && g_rank_val[c] > top) top = g_rank_val[c];
+  int8_t top = -128; for (int c = region + 1; c < VM_NS; ++c) if (VM_SPEC[c].parent == region && g_rank_val[c] > top) top = g_rank_val[c];
   uint64_t sum = 0; for (int c = region + 1; c < VM_NS; ++c) if (VM_SPEC[c].parent == region && g_rank_val[c] == top) sum += k[c];
   VASSUME(sum > 0);                                            // documented precondition: positive top-rank utility sum
   VREACH("randomize on the exact grid");
@@ -881,7 +881,7 @@ static void body_logger(int kind, int dest) {
 #ifdef VM_UTILITY
   if (kind == 4 || kind == 5) {                                    // documented preconditions of utilize / randomize on the answers of rank() and utility()
     predraw_answers();
-    int8_t top = -1; for (int c = dest + 1; c < VM_NS; ++c) if (VM_SPEC[c].parent == dest && g_rank_val[c] > top) top = g_rank_val[c];
+    int8_t top = -128; for (int c = dest + 1; c < VM_NS; ++c) if (VM_SPEC[c].parent == dest && g_rank_val[c] > top) top = g_rank_val[c];
     bool positive = false; for (int c = dest + 1; c < VM_NS; ++c) if (VM_SPEC[c].parent == dest && g_rank_val[c] == top && g_util_val[c] > 0.0f) positive = true;
     VASSUME(positive);
   }
